@@ -676,8 +676,27 @@ def bits_to_int(bits):
     return t + const if const else t
 
 
+def _bound(c, t, lo, hi, upper):
+    """tightest feasible bound of Int term t under the path condition (binary search, deterministic)"""
+    if upper:
+        while lo < hi:
+            mid = (lo + hi + 1) // 2
+            if c.feasible(t >= mid):
+                lo = mid
+            else:
+                hi = mid - 1
+        return lo
+    while lo < hi:
+        mid = (lo + hi) // 2
+        if c.feasible(t <= mid):
+            hi = mid
+        else:
+            lo = mid + 1
+    return lo
+
+
 def concretize(x, limit=256):
-    """Fork over the values of a small-range SymInt; returns a Python int."""
+    """Fork over the feasible values of a SymInt (small range under the path condition); returns a Python int."""
     if not isinstance(x, SymInt):
         return x
     if x.isconst():
@@ -685,9 +704,14 @@ def concretize(x, limit=256):
     c = Ctx.cur
     if c is None:
         raise Unsupported("concretize outside exploration")
-    if x.hi - x.lo + 1 > limit:
-        raise Unsupported("concretize: range %d..%d too large" % (x.lo, x.hi))
-    for v in range(x.lo, x.hi + 1):
+    lo, hi = x.lo, x.hi
+    if hi - lo + 1 > limit:
+        t = x.toint()
+        lo = _bound(c, t, lo, hi, False)
+        hi = _bound(c, t, lo, hi, True)
+        if hi - lo + 1 > limit:
+            raise Unsupported("concretize: feasible range %d..%d too large" % (lo, hi))
+    for v in range(lo, hi + 1):
         if bool(x == v):
             return v
     raise PathAbort("concretize: no value feasible")
@@ -1265,21 +1289,26 @@ PATCH = dict(int=s_int, float=s_float, bin=s_bin, isinstance=s_isinstance, min=s
 # --------------------------------------------------------------------------- formatting helpers (used by the rewrite)
 
 def fmt_hex(a, width, upper, exact=False):
-    """render an unsigned SymInt as hex chars; 'width' = zero-padded minimum width.
-    The number of digits must be decidable: leading nibbles beyond 'width' must be constant zero."""
-    bits = a.getbits()
+    """render a non-negative SymInt as hex chars; 'width' = zero-padded minimum width.
+    The number of digits must be decidable under the path condition."""
+    c = Ctx.cur
+    if a.bits is None:
+        if a.lo < 0 and not (c is not None and c.must(a.toint() >= 0)):
+            raise Unsupported("hex rendering of a possibly negative value")
+        hi = a.hi if c is None else _bound(c, a.toint(), builtins.max(a.lo, 0), a.hi, True)
+        w = builtins.max(hi.bit_length(), 1)
+        bv = z3.Int2BV(a.toint(), w)
+        bits = [tobit(z3.simplify(z3.Extract(i, i, bv))) for i in reversed(range(w))]
+    else:
+        bits = list(a.bits)
     n = (len(bits) + 3) // 4
     if n > builtins.max(width, 1):
-        # digits beyond the padded width: number of chars would depend on the value
-        c = Ctx.cur
         if width and c is not None and c.must(a.toint() < (1 << (4 * width))):
             bits = bits[len(bits) - 4 * width:]
             n = width
-        elif not width and n == 1:
-            pass
         else:
             raise Unsupported("hex rendering with value-dependent length")
-    if exact and n > 1:
+    if n > 1 and n > width:
         raise Unsupported("hex rendering with value-dependent length")
     w = builtins.max(width, n)
     bits = [ZERO1] * (4 * w - len(bits)) + bits
@@ -1423,6 +1452,10 @@ def symx_ite(c, a, b):
         ct = tobool(c)
         if (a.bits is not None or a.lo >= 0) and (b.bits is not None or b.lo >= 0) and a.bits is not None and b.bits is not None:
             cb = getattr(c, "bit", None)
+            if cb is None and isinstance(c, SymInt) and c.bits is not None:
+                nz = [x for x in c.bits if x.atoms or x.c]
+                if len(nz) == 1:
+                    cb = nz[0]      # truthiness of a one-bit mask result is that bit
             if cb is None:
                 cb = bool2bit(ct)
             A, B = a.bits, b.bits
